@@ -26,6 +26,7 @@ fn main() {
         "holder-probe" => holder::probe(&args),
         "holder-replay" => holder::replay(&args),
         "holder-stress" => holder::stress(&args),
+        "holder-sched" => holder::sched_random(&args),
         "sink-drive" => sink::drive(&args),
         "sink-conc" => sink::conc(&args),
         "stack-drive" => sink::stack(&args),
